@@ -487,7 +487,12 @@ static Scenario make_scenario(int idx, bool concurrent)
             struct E {
                 std::atomic<int>* destroyed;
                 int id;
-                ~E() { destroyed[id].fetch_add(1); }
+                ~E()
+                {
+                    // also after a throwing callback the reaped objects die outside the container's lock
+                    if (vrf::held_count() != 0) vrf::violation("oracle:element_destructor_ran_under_a_lock", "{\"after\":\"a throwing callback\"}");
+                    destroyed[id].fetch_add(1);
+                }
             };
             auto destroyed = std::shared_ptr<std::atomic<int>>(new std::atomic<int>[8], [](std::atomic<int>* p) { delete[] p; });
             for (int i = 0; i < 8; i++) destroyed.get()[i].store(0);
